@@ -2,9 +2,9 @@ package run
 
 import (
 	"bufio"
-	"os"
 	"encoding/json"
 	"fmt"
+	"os"
 	"strconv"
 	"strings"
 	"sync"
